@@ -1274,6 +1274,104 @@ fn streams(tier: Tier, shard: usize, nshards: usize) -> Report {
 
 /// Nominal per-type body limits of the protocol (bytes), written down from the message
 /// definitions: fixed-size bodies, `MAX_*` item counts, and the largest block.
+/// A fragment that arrives late but well inside the I/O timeout that applies at that point of the
+/// stream (60 s inside a body, a header batch or an attachment) must change nothing.  One delay of
+/// `DELAY_MS` (longer than the 2 s the codec allows for a frame header, far below the 60 s it
+/// allows for a body) is placed after the first body byte and in the middle of the body of one
+/// message of each kind; the message and a Ping sent right behind it must both be read.  All cases
+/// run concurrently (one connection, one real Codec and one writer thread each).
+const DELAY_MS: u64 = 2300;
+
+fn delays(_tier: Tier) -> Report {
+	uni::init_thread();
+	let mut r = Report::new();
+	let a = Arc::new(Alphabet::build());
+	let v = VERSIONS.len() - 2; // protocol version 3 (the last real version)
+	let ping = a.idx("Ping");
+	let mut cases: Vec<(usize, usize, &'static str)> = vec![];
+	for name in ["Ping", "GetPeerAddrs", "Headers:1", "Headers:33", "Block", "TxHashSetArchive+48001", "Unknown:255:100", "OutputSegment"] {
+		let i = match a.items.iter().position(|x| x.name == name) {
+			Some(i) => i,
+			None => continue,
+		};
+		let body = a.items[i].body_len[v];
+		let wire = a.items[i].wire[v].len();
+		if body >= 1 {
+			cases.push((i, FRAME + 1, "after-first-body-byte"));
+		}
+		if body >= 4 {
+			cases.push((i, FRAME + body / 2, "mid-body"));
+		}
+		if wire > FRAME + body + 1 {
+			// inside the attachment that follows the message
+			cases.push((i, FRAME + body + (wire - FRAME - body) / 2, "mid-attachment"));
+		}
+	}
+	r.extra.insert("delay_ms".into(), json!(DELAY_MS));
+	let mut handles = vec![];
+	for (i, cut, where_) in cases {
+		let a = a.clone();
+		handles.push(std::thread::spawn(move || {
+			uni::init_thread();
+			let item = &a.items[i];
+			let mut stream = item.wire[v].clone();
+			stream.extend_from_slice(&a.items[ping].wire[v]);
+			let (mut w, rd) = {
+				let l = TcpListener::bind("127.0.0.1:0").expect("bind");
+				let c = TcpStream::connect(l.local_addr().unwrap()).expect("connect");
+				let (s, _) = l.accept().expect("accept");
+				(c, s)
+			};
+			let _ = w.set_nodelay(true);
+			let version = VERSIONS[v];
+			let reader = std::thread::spawn(move || {
+				uni::init_thread();
+				let mut codec = Codec::new(ProtocolVersion(version), rd);
+				let mut events = vec![];
+				loop {
+					let (res, _) = codec.read();
+					match res {
+						Ok(m) => events.push(digest(m, version, &mut codec)),
+						Err(e) => {
+							events.push(Ev::Err(err_class(&e)));
+							break;
+						}
+					}
+					if events.len() > 64 {
+						break;
+					}
+				}
+				events
+			});
+			let _ = w.write_all(&stream[..cut]);
+			std::thread::sleep(Duration::from_millis(DELAY_MS));
+			let _ = w.write_all(&stream[cut..]);
+			let _ = w.shutdown(std::net::Shutdown::Write);
+			let events = reader.join().unwrap_or_else(|_| vec![Ev::Panic("reader thread".into())]);
+			let expected: Vec<&Exp> = item.exp[v].iter().chain(a.items[ping].exp[v].iter()).collect();
+			let verdict = judge(&expected, &events, "Connection(UnexpectedEof)");
+			(item.name.clone(), cut, where_, verdict, events.iter().map(|e| e.brief()).collect::<Vec<_>>())
+		}));
+	}
+	for h in handles {
+		let (name, cut, where_, verdict, got) = h.join().expect("delay case thread");
+		r.evaluations += 1;
+		r.distinct += 1;
+		match verdict {
+			Ok(()) => r.outcome(&format!("late-fragment:{}:unchanged", where_)),
+			Err((k, what)) => {
+				r.outcome(&format!("late-fragment:{}:CHANGED", where_));
+				r.violation(
+					format!("delay:{}:{}", where_, k),
+					format!("{} followed by Ping, with the bytes from offset {} ({}) arriving {} ms late (the body timeout is 60 s): {}; observed {:?}", name, cut, where_, DELAY_MS, what, got),
+					json!({"kind": "delay", "item": name, "cut": cut, "where": where_, "delay_ms": DELAY_MS}),
+				);
+			}
+		}
+	}
+	r
+}
+
 fn nominal_limit(ty: u8) -> u64 {
 	let max_block = global::max_block_weight() / consensus::OUTPUT_WEIGHT * 708;
 	match ty {
@@ -1966,13 +2064,14 @@ impl Engine for C19 {
 		}
 	}
 	fn parts(&self, _tier: Tier) -> Vec<(&'static str, usize)> {
-		vec![("streams", 16), ("limits", 4), ("handshake", 1)]
+		vec![("streams", 16), ("limits", 4), ("handshake", 1), ("delays", 1)]
 	}
 	fn run_part(&self, part: &str, tier: Tier, shard: usize, n: usize) -> Report {
 		match part {
 			"streams" => streams(tier, shard, n),
 			"limits" => limits(tier, shard, n),
 			"handshake" => handshake(tier),
+			"delays" => delays(tier),
 			_ => panic!("unknown part"),
 		}
 	}
@@ -2018,6 +2117,13 @@ impl Engine for C19 {
 				let hb: Vec<Vec<u8>> = mined_headers(n).iter().map(|h| ser(h, 3)).collect();
 				let (class, f, sample) = check_count(&mut rig, &hb, n, case["count"].as_u64().ok_or("count")? as u16);
 				verdict(f, format!("{} {}", class, sample))
+			}
+			Some("delay") => {
+				let r = delays(Tier::Quick);
+				match r.violations.iter().find(|v| &v.case == case).or(r.violations.first()) {
+					Some(v) => Err(format!("{}: {}", v.key, v.what)),
+					None => Ok(format!("delays part holds: {:?}", r.outcomes)),
+				}
 			}
 			Some("handshake") | Some("handshake-then") => {
 				let r = handshake(Tier::Quick);
